@@ -56,3 +56,24 @@ def run_tool(name, args, cwd=None, trace=None, timeout=120, env=None, kind="hook
 def pmap(fn, items, workers=None):
     with ThreadPoolExecutor(max_workers=workers or NCPU) as ex:
         return list(ex.map(fn, items))
+
+
+def isolate(items, ok_fn, max_singletons=400):
+    """Batch isolation: ok_fn(list) -> True when the tool handles the whole list.  Returns
+    (good_groups, bad_items): groups that passed together and single items that fail alone.
+    Bisects failing groups; stops splitting after max_singletons bad items were found."""
+    good, bad = [], []
+    stack = [list(items)]
+    while stack:
+        g = stack.pop()
+        if not g:
+            continue
+        if ok_fn(g):
+            good.append(g)
+        elif len(g) == 1 or len(bad) >= max_singletons:
+            bad.extend(g)
+        else:
+            m = len(g) // 2
+            stack.append(g[m:])
+            stack.append(g[:m])
+    return good, bad
